@@ -2,7 +2,8 @@
 """Self-test of the checkers (both ways): applies each mutant of mutants.json (and each seeded change of ../seeded/*/patch.diff)
 to a scratch copy of /repo outside /repo and /verif, runs the quick checks with FPDEC_REPO=<copy>, and compares the set of
 alarming checks with the expectation. The scratch copy and its build output are removed afterwards.
-usage: run_mutants.py [--seeded | --refactors] [--only id[,id]] [--checks C01,C02]"""
+usage: run_mutants.py [--seeded | --refactors] [--only id[,id]] [--checks C01,C02] [--expected-only]
+(--expected-only: a mutant with an expectation is run against the expected checks only)"""
 import json, os, shutil, subprocess, sys, tempfile
 
 HERE = os.path.dirname(os.path.abspath(__file__))
@@ -70,7 +71,10 @@ def main():
                     ok = False
                     continue
                 open(p, 'w').write(t.replace(m['old'], m['new']) if m.get('all') else t.replace(m['old'], m['new'], 1))
-            alarms, broken = run_checks(tmp, which)
+            sel = which
+            if '--expected-only' in args and m.get('expect'):
+                sel = [c for c in which if c in m['expect']]
+            alarms, broken = run_checks(tmp, sel)
             exp = set(x for x in m.get('expect', []) if x in which)
             good = exp <= set(alarms) and (bool(exp) or not alarms) and not broken
             ok = ok and good
